@@ -231,12 +231,15 @@ def regen_tables():
     os.makedirs(BUILD, exist_ok=True)
     xh = os.path.join(BUILD, "tables_extra.h")
     xtxt = "".join('#include "%s"\n' % os.path.join(VERIF, "harness", n) for n in incs)
-    xtxt += "#define HV_TABLES_EXTRA_CALLS " + " ".join("emit_%s();" % n[7:-4] for n in incs) + "\n"
+    # each extension prints into its own Coq module (exported), so that two extensions may emit the same constant
+    xtxt += "#define HV_TABLES_EXTRA_CALLS " + " ".join(
+        'printf("\\nModule T_%s.\\n"); emit_%s(); printf("End T_%s.\\nExport T_%s.\\n");' % ((n[7:-4],) * 4) for n in incs) + "\n"
     if not os.path.exists(xh) or open(xh).read() != xtxt:
         open(xh, "w").write(xtxt)
     exe = build_harness("tables", ["tables.c"], san=True, with_lib=True, deps=incs,
                         extra_flags=['-DHV_TOPOLOGY_C="%s"' % os.path.join(REPO, "hwloc/topology.c"),
                                      '-DHV_TABLES_EXTRA="%s"' % xh,
+                                     "-DHV_XH_HASH=%s" % hashlib.md5(xtxt.encode()).hexdigest(),
                                      ])
     rc, out, err = sh([exe], timeout=60)
     if rc != 0:
